@@ -410,8 +410,10 @@ def run_c14_e2e(res, tier, seed, prop="C14"):
     def noise(n):
         return "".join(rng.choice(wide) for _ in range(n))
     try:
-        for k in range(4 if tier == "quick" else 60):
-            root = f"{base}/p{k}"
+        import urllib.parse
+        for k in range(6 if tier == "quick" else 60):
+            # the project may live under a directory whose name needs escaping in a URI (`#`, `?`, `%41`, a blank, a backslash, `é`)
+            root = f"{base}/p{k}" + ["", "", " c#app", "what?now", "rate%41b", "back\\slash é"][k % 6]
             os.makedirs(root + "/src")
             open(root + "/gleam.toml", "w").write('name = "p"\n')
             lib = (f"// {noise(rng.randrange(0, 40))}\n" * rng.randrange(0, 4) +
@@ -424,13 +426,14 @@ def run_c14_e2e(res, tier, seed, prop="C14"):
             texts = {"lib": lib, "main": main, "third": third}
             for n, t in texts.items():
                 open(f"{root}/src/{n}.gleam", "w").write(t)
-            uri = {n: f"file://{root}/src/{n}.gleam" for n in texts}
-            byuri = {u: n for n, u in uri.items()}
+            uri = {n: "file://" + urllib.parse.quote(f"{root}/src/{n}.gleam") for n in texts}
+            byuri = {f"{root}/src/{n}.gleam": n for n in texts}      # by decoded path
             c = lsp.Lsp(root)
             try:
                 # half of the sessions offer UTF-8 positions (LSP 3.17 negotiation): whatever the server announces is what
                 # the editor then counts columns in, for the positions it sends and the ranges it receives
-                if c.initialize(position_encodings=(["utf-8", "utf-16"] if k % 2 else None)) is None:
+                offers = [None, ["utf-8", "utf-16"], ["utf-8"], ["utf-32"], ["utf-16", "utf-8"], ["utf-32", "utf-8"]][(k // 2 + k) % 6]
+                if c.initialize(position_encodings=offers) is None:
                     continue
                 enc = c.position_encoding
                 if enc not in ("utf-8", "utf-16", "utf-32"):
@@ -499,7 +502,12 @@ def run_c14_e2e(res, tier, seed, prop="C14"):
                                 got.append(("rename", u, e["range"]))
                         res.cov["evaluations"] += len(got)
                         for (what, u, rg) in got:
-                            name = byuri.get(u) or byuri.get("file://" + os.path.normpath(u[7:]))
+                            name = byuri.get(os.path.normpath(urllib.parse.unquote(u[7:]))) if u.startswith("file://") else None
+                            if name is None and u.startswith("file://"):
+                                res.add_violation(prop + "/server-names-file-outside-workspace",
+                                                  f"{what} asked in {n}.gleam: the answer names {u!r}, which is none of the workspace's files (root {root!r})",
+                                                  {"root": root, "asked_in": n, "request": what, "answer_uri": u, "offered_position_encodings": offers})
+                                break
                             if name is None or not isinstance(rg, dict) or "start" not in rg:
                                 continue
                             sel = client_slice(texts[name], rg, enc)
